@@ -10,7 +10,11 @@ pub struct Pass {
 }
 impl Pass {
     pub fn new(nontrivial: bool) -> Self {
-        Pass { nontrivial, classes: Vec::new(), subcases: 0 }
+        Pass {
+            nontrivial,
+            classes: Vec::new(),
+            subcases: 0,
+        }
     }
     pub fn class(mut self, c: &'static str) -> Self {
         self.classes.push(c);
@@ -32,10 +36,16 @@ pub struct Violation {
 }
 impl Violation {
     pub fn new(sig: impl Into<String>, msg: impl Into<String>) -> Self {
-        Violation { sig: sig.into(), msg: msg.into() }
+        Violation {
+            sig: sig.into(),
+            msg: msg.into(),
+        }
     }
     pub fn from_panic(ctx: &str, p: &crate::util::Panic) -> Self {
-        Violation { sig: p.signature(), msg: format!("{}: {}", ctx, p.describe()) }
+        Violation {
+            sig: p.signature(),
+            msg: format!("{}: {}", ctx, p.describe()),
+        }
     }
 }
 pub type CheckResult = Result<Pass, Violation>;
@@ -46,4 +56,3 @@ macro_rules! viol {
         $crate::verdict::Violation::new($sig, format!($($arg)*))
     };
 }
-
